@@ -5,10 +5,10 @@
 package auth
 
 import (
+	"crypto/rand"
+	"encoding/hex"
 	"sync"
 	"time"
-
-	"github.com/cnotch/ipchub/provider/security"
 )
 
 // Token 用户登录后的Token
@@ -25,13 +25,25 @@ type TokenManager struct {
 	tokens sync.Map // token->Token
 }
 
+// newTokenValue returns 128 bits from the system's random source as 32 hex
+// digits (the format tokens always had). Tokens used to be the MD5 of the
+// process-wide id counter, whose value every RTSP Session id, WSP channel id
+// and the server's start time disclose.
+func newTokenValue() string {
+	var b [16]byte
+	if _, err := rand.Read(b[:]); err != nil {
+		panic("auth: no randomness for a token: " + err.Error())
+	}
+	return hex.EncodeToString(b[:])
+}
+
 // NewToken 给用户新建Token
 func (tm *TokenManager) NewToken(username string) *Token {
 	token := &Token{
 		Username: username,
-		AToken:   security.NewID().MD5(),
+		AToken:   newTokenValue(),
 		AExp:     time.Now().Add(time.Hour * time.Duration(2)).Unix(),
-		RToken:   security.NewID().MD5(),
+		RToken:   newTokenValue(),
 		RExp:     time.Now().Add(time.Hour * time.Duration(7*24)).Unix(),
 	}
 
